@@ -8,8 +8,12 @@
 // Oracle (history invariant): everything the peer received before its side of the link was encrypted must be free of
 // (a) the planted secrets and their derivatives, (b) SASL / SASL 2 exchange elements, legacy-auth IQs, bind, and any
 // <iq/>, <message/>, <presence/>.  If encryption cannot be negotiated the client ends up disconnected.
+// A third of the cases give the client two candidate addresses (as an SRV lookup or the built-in fall-back list does)
+// and let the first peer drop the connection mid-negotiation: the script goes on with the second peer, and what either
+// peer received in clear is judged.
 #include "gens.h"
 #include "lb.h"
+#include "tc.h"
 #include "xmlutil.h"
 
 #include "QXmppClient.h"
@@ -87,8 +91,8 @@ static QString features(Tape &t, std::string &desc, bool &offersTls, bool &authC
 
 static void run(Tape &t, Ctx &c, bool requireTls)
 {
-    lb::ScriptedServer srv;
-    c.require(srv.isListening(), "c04 harness-no-listen", "cannot listen on loopback");
+    lb::ScriptedServer srv, srv2;
+    c.require(srv.isListening() && srv2.isListening(), "c04 harness-no-listen", "cannot listen on loopback");
 
     QXmppClient client(t.b() ? QXmppClient::BasicExtensions : QXmppClient::NoExtensions);
     QXmppLogger logger;
@@ -126,15 +130,72 @@ static void run(Tape &t, Ctx &c, bool requireTls)
         }
     }
 
-    client.connectToServer(cfg);
+    // one explicit host, or a list of two candidate addresses
+    const bool twoAddresses = t.prob(1, 3);
+    // a fixed opening for half of the two-address cases, so that the fall-over happens deep inside a negotiation often
+    // enough: TLS upgrade and authentication offer on the first address, then the connection drops
+    const bool scriptedOpening = twoAddresses && t.b();
+    if (twoAddresses) {
+        using QXmpp::Private::ServerAddress;
+        TestClient::connectToAddressList(client, cfg, { ServerAddress { ServerAddress::Tcp, QStringLiteral("127.0.0.1"), srv.serverPort() }, ServerAddress { ServerAddress::Tcp, QStringLiteral("127.0.0.1"), srv2.serverPort() } });
+        cdesc += " two-candidate-addresses";
+        c.label("client:two-candidate-addresses");
+    } else {
+        client.connectToServer(cfg);
+    }
     c.require(lb::settleUntil([&] { return srv.last() != nullptr; }, 3000), "c04 harness-no-connection", "client did not connect to the scripted server");
-    lb::Conn &conn = *srv.last();
+    lb::Conn *connp = srv.last();
     lb::settle();
+#define conn (*connp)
 
     std::string history;
     const QString streamId = QStringLiteral("sid-c04-77");
-    bool encryptionImpossible = false, reachedAuthCapable = false, tlsStarted = false;
+    bool encryptionImpossible = false, reachedAuthCapable = false, tlsStarted = false, proceedSent = false, failedOver = false;
     int steps = 2 + int(t.u(9));
+    const char *header10 = "<?xml version='1.0'?><stream:stream xmlns='jabber:client' xmlns:stream='http://etherx.jabber.org/streams' from='example.org' id='%1' version='1.0'>";
+    // macro: what an ordinary server does to get a client authenticated over TLS
+    auto tlsUpgradeAndOffer = [&] {
+        history += " [features{starttls(required) sasl[PLAIN,SCRAM-SHA-1,DIGEST-MD5]}";
+        srv.send(conn, QStringLiteral("<stream:features><starttls xmlns='urn:ietf:params:xml:ns:xmpp-tls'><required/></starttls><mechanisms xmlns='urn:ietf:params:xml:ns:xmpp-sasl'><mechanism>PLAIN</mechanism><mechanism>SCRAM-SHA-1</mechanism><mechanism>DIGEST-MD5</mechanism></mechanisms></stream:features>"));
+        reachedAuthCapable = true;
+        lb::settle();
+        if (!conn.encrypted && !tlsStarted && conn.plain.contains("<starttls")) {
+            history += " proceed+handshake";
+            proceedSent = true;
+            // the server side must be in TLS mode before the event loop runs again: the client's ClientHello follows
+            // <proceed/> at once and must not be read as stream data
+            srv.send(conn, QStringLiteral("<proceed xmlns='urn:ietf:params:xml:ns:xmpp-tls'/>"));
+            tlsStarted = true;
+            srv.startTls(conn);
+            lb::settleUntil([&] { return conn.encrypted || conn.closedByPeer; }, 4000);
+            if (conn.encrypted) {
+                history += "(ok) header features{sasl[PLAIN,SCRAM-SHA-1,DIGEST-MD5]}";
+                lb::settle();
+                srv.send(conn, QString::fromLatin1(header10).arg(streamId));
+                srv.send(conn, QStringLiteral("<stream:features><mechanisms xmlns='urn:ietf:params:xml:ns:xmpp-sasl'><mechanism>PLAIN</mechanism><mechanism>SCRAM-SHA-1</mechanism><mechanism>DIGEST-MD5</mechanism></mechanisms></stream:features>"));
+                lb::settle();
+            } else {
+                history += "(handshake did not complete: " + q(conn.errors) + ")";
+                c.label("macro:handshake-did-not-complete");
+            }
+        }
+        history += "]";
+    };
+    // the first peer drops the connection; the client moves on to its next candidate address
+    auto cutAndFailOver = [&] {
+        history += " CUT->next-address";
+        failedOver = true;
+        srv.cut(conn);
+        if (!lb::settleUntil([&] { return srv2.last() != nullptr; }, 3000)) {
+            history += "(client gave up)";
+            return false;
+        }
+        connp = srv2.last();
+        tlsStarted = proceedSent = false;
+        lb::settle();
+        c.label("failed-over-to-second-address");
+        return true;
+    };
     QString lastIqId = QStringLiteral("x");
     auto lastClientIqId = [&] {
         QRegularExpression re(QStringLiteral("<iq[^>]* id=\"([^\"]*)\""));
@@ -147,7 +208,21 @@ static void run(Tape &t, Ctx &c, bool requireTls)
     for (int step = 0; step < steps; step++) {
         if (conn.closedByPeer || !conn.sock || conn.sock->state() != QAbstractSocket::ConnectedState)
             break;
-        uint32_t op = step == 0 ? t.weighted({ 8, 2, 1 }) : 3 + t.weighted({ 6, 3, 1, 2, 2, 2, 3, 1, 1, 1, 1 });
+        if (scriptedOpening && step < 3) {
+            if (step == 0) {
+                history += " header(1.0)";
+                srv.send(conn, QString::fromLatin1(header10).arg(streamId));
+            } else if (step == 1) {
+                tlsUpgradeAndOffer();
+            } else if (!cutAndFailOver()) {
+                break;
+            }
+            lb::settle();
+            continue;
+        }
+        // a connection starts with the server's stream header (also the one the client fell over to)
+        const bool freshConnection = step == 0 || (failedOver && history.size() >= 17 && history.compare(history.size() - 17, 17, "CUT->next-address") == 0);
+        uint32_t op = freshConnection ? t.weighted({ 8, 2, 1 }) : 3 + t.weighted({ 6, 3, 1, 2, 2, 2, 3, 1, 1, 1, 1, 2, 2, 2 });
         switch (op) {
         case 0: history += " header(1.0)"; srv.send(conn, QStringLiteral("<?xml version='1.0'?><stream:stream xmlns='jabber:client' xmlns:stream='http://etherx.jabber.org/streams' from='example.org' id='%1' version='1.0'>").arg(streamId)); break;
         case 1: history += " header(no-version)"; reachedAuthCapable = true; srv.send(conn, QStringLiteral("<?xml version='1.0'?><stream:stream xmlns='jabber:client' xmlns:stream='http://etherx.jabber.org/streams' from='example.org' id='%1'>").arg(streamId)); break;
@@ -172,9 +247,11 @@ static void run(Tape &t, Ctx &c, bool requireTls)
                 break;
             }
             history += " proceed+handshake";
+            proceedSent = true;
             srv.send(conn, QStringLiteral("<proceed xmlns='urn:ietf:params:xml:ns:xmpp-tls'/>"));
-            lb::settle();
-            // the handshake only makes sense if the client asked for it; otherwise the peer keeps talking in clear
+            // the handshake only makes sense if the client asked for it; otherwise the peer keeps talking in clear.
+            // The server side must be in TLS mode before the event loop runs again: the client's ClientHello follows
+            // <proceed/> at once and must not be read as stream data.
             if (conn.plain.contains("<starttls")) {
                 tlsStarted = true;
                 srv.startTls(conn);
@@ -186,7 +263,7 @@ static void run(Tape &t, Ctx &c, bool requireTls)
             }
             break;
         case 5:
-            if (history.find("proceed") != std::string::npos) {
+            if (proceedSent) {
                 history += " noop";   // after <proceed/> the peer speaks TLS: a clear-text <failure/> is not a possible server behaviour
                 break;
             }
@@ -223,6 +300,23 @@ static void run(Tape &t, Ctx &c, bool requireTls)
         }
         case 11: history += " r"; srv.send(conn, QStringLiteral("<r xmlns='urn:xmpp:sm:3'/>")); break;
         case 12: history += " message"; srv.send(conn, QStringLiteral("<message from='bob@example.org/x' type='chat'><body>hi</body><request xmlns='urn:xmpp:receipts'/></message>")); break;
+        case 14: tlsUpgradeAndOffer(); break;
+        case 15:
+            // accept whatever authentication is going on, restart the stream and offer resource binding
+            history += " [sasl-success header features{bind session sm}]";
+            srv.send(conn, QStringLiteral("<success xmlns='urn:ietf:params:xml:ns:xmpp-sasl'/>"));
+            lb::settle();
+            srv.send(conn, QString::fromLatin1(header10).arg(streamId));
+            srv.send(conn, QStringLiteral("<stream:features><bind xmlns='urn:ietf:params:xml:ns:xmpp-bind'/><session xmlns='urn:ietf:params:xml:ns:xmpp-session'/><sm xmlns='urn:xmpp:sm:3'/></stream:features>"));
+            break;
+        case 16:
+            if (!twoAddresses || failedOver) {
+                history += " noop";
+                break;
+            }
+            if (!cutAndFailOver())
+                step = steps;
+            break;
         case 13: history += " stream-error"; srv.send(conn, t.b() ? QStringLiteral("<stream:error><see-other-host xmlns='urn:ietf:params:xml:ns:xmpp-streams'>127.0.0.1:1</see-other-host></stream:error>") : QStringLiteral("<stream:error><policy-violation xmlns='urn:ietf:params:xml:ns:xmpp-streams'/></stream:error>")); break;
         }
         lb::settle();
@@ -230,7 +324,11 @@ static void run(Tape &t, Ctx &c, bool requireTls)
     lb::settle(20, 600);
 
     // ---- oracle over everything received in clear
-    const QString plain = QString::fromUtf8(conn.plain);
+    QByteArray plainBytes;
+    for (auto *s : { &srv, &srv2 })
+        for (auto &cn : s->conns)
+            plainBytes += cn->plain + "\n";
+    const QString plain = QString::fromUtf8(plainBytes);
     c.sample([&] { return std::string(requireTls ? "TLSRequired " : "TLSEnabled(control) ") + cdesc + " |" + history + " | plaintext=" + q(plain.left(400)); });
     QStringList secrets = { PASSWORD, QString::fromLatin1(PASSWORD.toUtf8().toBase64()), QString::fromLatin1((QByteArray(1, '\0') + "alice" + QByteArray(1, '\0') + PASSWORD.toUtf8()).toBase64()), TOKEN,
                             QString::fromLatin1(QCryptographicHash::hash((streamId + PASSWORD).toUtf8(), QCryptographicHash::Sha1).toHex()) };
@@ -274,6 +372,7 @@ static void run(Tape &t, Ctx &c, bool requireTls)
     }
     client.disconnectFromServer();
     lb::settle(5, 200);
+#undef conn
 }
 
 VCHECK("c04.required", 200) { run(t, c, true); }
